@@ -119,6 +119,7 @@ func genJournalCase(r *rng.R, fork string) joCase {
 		new(uint256.Int).SetBytes(crypto.Keccak256([]byte("slot")))}
 	types := []common.Hash{common.HexToHash("0x0a"), common.HexToHash("0x0b"), crypto.Keccak256Hash([]byte("t_string"))}
 	var keys []*joKey
+	var invalidEnc []string // hostile VRJNAL steps on words that are certainly not a valid string encoding
 	pushH := func(h common.Hash) { prog.PushBytes(h[:]) }
 	pushU := func(u *uint256.Int) { b := u.Bytes32(); prog.PushBytes(b[:]) }
 	desc := func(f string, a ...interface{}) { cs.Desc = append(cs.Desc, fmt.Sprintf(f, a...)) }
@@ -321,9 +322,11 @@ func genJournalCase(r *rng.R, fork string) joCase {
 			switch r.Intn(4) {
 			case 0: // short form with a length of 32 or more
 				word = common.BytesToHash(r.Bytes(32))
-				word[31] = byte(2 * (32 + r.Intn(90)))
+				word[31] = byte(2 * (32 + r.Intn(96))) // every even low byte 0x40..0xfe
+				invalidEnc = append(invalidEnc, fmt.Sprintf("short form (even low byte %#x) announcing %d >= 32 bytes", word[31], word[31]/2))
 			case 1: // long form with a length below 32
 				word = common.BigToHash(big.NewInt(int64(2*r.Intn(32) + 1)))
+				invalidEnc = append(invalidEnc, fmt.Sprintf("long form (odd word %#x) announcing %d < 32 bytes", word[31], word[31]/2))
 			case 2: // long form, moderate length, data slots unset
 				word = common.BigToHash(big.NewInt(int64(2*(32+r.Intn(3000)) + 1)))
 			default:
@@ -577,6 +580,10 @@ func genJournalCase(r *rng.R, fork string) joCase {
 		}
 	default:
 		cs.Result = "ok"
+		// C09: "Operands that do not denote ... a valid string encoding are rejected with an error"
+		for _, why := range invalidEnc {
+			cs.Oracle = append(cs.Oracle, "the reference-journal instruction accepted a storage word that is not a valid string encoding: "+why)
+		}
 	}
 	cs.Line = l.String()
 	return cs
